@@ -14,6 +14,12 @@ pub mod layout {
     macro_rules! print {
         ($($t:tt)*) => { crate::seams::emit(format_args!($($t)*), false) };
     }
+    // the programs are compiled inside the harness crate: compile-time crate paths must still
+    // point at the crate they belong to
+    macro_rules! env {
+        ("CARGO_MANIFEST_DIR") => { "/repo/unic-langid-impl" };
+        ($($t:tt)*) => { ::core::env!($($t)*) };
+    }
     include!("/repo/unic-langid-impl/src/bin/generate_layout.rs");
     pub fn run() {
         main()
@@ -31,6 +37,12 @@ pub mod likely {
     }
     macro_rules! print {
         ($($t:tt)*) => { crate::seams::emit(format_args!($($t)*), false) };
+    }
+    // the programs are compiled inside the harness crate: compile-time crate paths must still
+    // point at the crate they belong to
+    macro_rules! env {
+        ("CARGO_MANIFEST_DIR") => { "/repo/unic-langid-impl" };
+        ($($t:tt)*) => { ::core::env!($($t)*) };
     }
     include!("/repo/unic-langid-impl/src/bin/generate_likelysubtags.rs");
     pub fn run() {
